@@ -61,9 +61,9 @@ func runSync(args []string) (map[string]any, error) {
 	}
 	// large-scope plans (donor stores of several hundred nodes), one per repair mechanism
 	if *c.n > 0 {
-		for _, via := range []string{"mergestate", "mergedb"} {
+		for i, via := range []string{"mergestate", "mergedb", "mergedb"} {
 			tid++
-			exec.RunSync(w, st, tid, exec.GenSyncPlanBig(r, via), r)
+			exec.RunSync(w, st, tid, exec.GenSyncPlanBig(r, via, i == 2), r)
 		}
 	}
 	if err := w.Close(); err != nil {
